@@ -959,7 +959,7 @@ theorem ready_of_wf {D : List FId} {n : Nat} {fut : Fut} {born : Nat} {body : Li
     (h : ItemWf D n fut born body) (hD : ∀ f ∈ D, f ∈ env.done) (hn : n < env.now) : fut.ready env born = true := by
   unfold Fut.ready
   simp only [Bool.and_eq_true, List.all_eq_true, Bool.or_eq_true, Bool.not_eq_true', decide_eq_true_eq]
-  refine ⟨?_, Or.inr (Nat.lt_of_le_of_lt h.1 hn)⟩
+  refine ⟨⟨?_, Or.inr (Nat.lt_of_le_of_lt h.1 hn)⟩, Or.inr (by omega)⟩
   intro f hf
   simpa using hD f (h.2.1 f hf)
 
